@@ -36,6 +36,8 @@ type Config struct {
 	KeepAliveNs int64
 	// DialTimeoutNs: how long a dial into a black hole hangs before ETIMEDOUT (kernel connect time-out).
 	DialTimeoutNs int64
+	// LatPct scales the latency of the connections of a dialer (dialer id -> percent).
+	LatPct map[string]int64
 }
 
 type Net struct {
@@ -484,6 +486,9 @@ func (n *Net) dial(ctx context.Context, id, addr string) (net.Conn, error) {
 	lat := n.Cfg.LatencyNs
 	if lat > 0 {
 		lat = lat/2 + rng.I64n(lat+1)
+		if pct, ok := n.Cfg.LatPct[id]; ok {
+			lat = lat * pct / 100
+		}
 	}
 	r := n.ruleFor(id)
 	n.mu.Unlock()
